@@ -74,6 +74,17 @@ func (mls *MetaLeaseSet) Verify() error {
 // Otherwise, the Destination's signing public key is returned.
 func (mls *MetaLeaseSet) signingPublicKeyForVerification() (types.SigningPublicKey, error) {
 	if mls.HasOfflineKeys() && mls.offlineSignature != nil {
+		// The transient key may only stand in for the destination's key if the
+		// offline block is itself signed by the destination's long-term key.
+		destKey, err := mls.destination.SigningPublicKey()
+		if err != nil {
+			return nil, oops.Errorf("failed to get signing public key from Destination: %w", err)
+		}
+		if ok, err := mls.offlineSignature.VerifySignature(destKey.Bytes()); err != nil {
+			return nil, oops.Errorf("failed to verify offline signature: %w", err)
+		} else if !ok {
+			return nil, oops.Errorf("offline signature is not valid under the destination's signing key")
+		}
 		// Use transient signing public key from offline signature
 		transientKeyBytes := mls.offlineSignature.TransientPublicKey()
 		transientSigType := mls.offlineSignature.TransientSigType()
